@@ -249,6 +249,14 @@ int fake_upump_count(struct upump_mgr *mgr)
     return n;
 }
 
+int fake_upump_count_opaque(struct upump_mgr *mgr, void *opaque)
+{
+    struct fake_mgr *fm = fake_mgr_from_upump_mgr(mgr);
+    int n = 0; struct uchain *uchain;
+    ulist_foreach (&fm->pumps, uchain) if (fake_pump_from_uchain(uchain)->common.upump.opaque == opaque) n++;
+    return n;
+}
+
 int fake_upump_active(struct upump_mgr *mgr)
 {
     struct fake_mgr *fm = fake_mgr_from_upump_mgr(mgr);
